@@ -49,6 +49,13 @@ def func_job(j):
     except Exception as e:
         import traceback
         return dict(exc=type(e).__name__, msg=str(e)[:300], tb=traceback.format_exc()[-600:])
+    if j.get('later'):      # another model is compiled for the same backend in the other precision before f is used
+        try:
+            c12.build(m, order=(1, 2, 0)).get_run_func('vf2', 1e-3, vectorize=False, verbose=False, clear=False, in_place=False,
+                                                        float_precision={'float64': 'float32', 'float32': 'float64'}[j['precision']],
+                                                        backend=b, file_name=f'fn2_{b}')
+        except Exception as e:
+            return dict(exc=type(e).__name__, msg=str(e)[:300], stage='later compile')
     pos = {}
     y0 = np.asarray(fa[1], dtype='float64').ravel()
     for v in c12.SV:
@@ -219,12 +226,12 @@ def run(ctx):
     perf = dict(default=40, torch=40, jax=40, fortran=8) if tier == 'quick' else dict(default=300, torch=300, jax=300, fortran=60)
     for b in ['default'] + BACKENDS:
         for k, m in enumerate(models[:perf[b]]):
-            fjobs.append(dict(m=m, backend=b, precision=['float64', 'float32'][k % 2], seed=ctx.seed * 31 + k))
+            fjobs.append(dict(m=m, backend=b, precision=['float64', 'float32'][k % 2], seed=ctx.seed * 31 + k, later=(k % 4 == 0 and b != 'fortran')))      # one Fortran compile per process (D24)
     for j, o in zip(fjobs, run_cases(func_job, fjobs, timeout=900, nproc=12)):
         if 'harness_error' in o:
             raise RuntimeError(f'replay failed: {o}')
         ctx.replayed += 1
-        ctx.case(key=['func', j['backend'], j['m']['eqs'], j['precision']], nontrivial=True)
+        ctx.case(key=['func', j['backend'], j['m']['eqs'], j['precision'], j.get('later')], nontrivial=True)
         case = dict(eqs=j['m']['eqs'], backend=j['backend'], precision=j['precision'])
         tol = 2e-5 if j['precision'] == 'float32' else 1e-10
         bad = None
